@@ -394,19 +394,21 @@ class SymPattern:
 
     def sub(self, repl, s, count=0):
         c = self._conc(s)
-        if c is not None and isinstance(repl, str):
+        if c is not None and (isinstance(repl, str) or callable(repl)):
             return self.real.sub(repl, c, count)
         if count != 0:
             raise Unsupported("regex sub count")
-        if callable(repl) or (isinstance(repl, str) and "\\" in repl):
-            raise Unsupported("regex sub with callable/backreference replacement")
+        if isinstance(repl, str) and "\\" in repl:
+            raise Unsupported("regex sub with backreference replacement")
         s = SymStr.of(s)
-        repl = SymStr.of(repl)
+        fn = repl if callable(repl) else None
+        if fn is None:
+            repl = SymStr.of(repl)
         out = []
         last = 0
         for m in self.finditer(s):
             out.extend(s.cs[last:m.start()])
-            out.extend(repl.cs)
+            out.extend(SymStr.of(fn(m)).cs if fn else repl.cs)
             last = m.end()
         out.extend(s.cs[last:])
         return SymStr.mk(out)
